@@ -1,6 +1,7 @@
 import Lean.Data.Json
 import SpoxModel.Model.Singleton
 import SpoxModel.Model.MLOnnx
+import SpoxModel.Model.Subtype
 /-! Line-protocol handler for property C05 (model side of the correspondence): a constructor call in,
     the model's singleton one-node model, the hand-built form, and `construct` (with the inference
     answer observed on the real run plugged in as the judgement) out. -/
@@ -176,7 +177,55 @@ def compressHyp (r : Except Err Ty) (std : List (String × Option Ty)) : List (S
   | .ok t, [(k, st)] => [("own_refines_std", toJson (refinesAll [(k, some t)] [(k, st)]))]
   | _, _ => []
 
+/-! round 10: `Type._subtype` / `Shape.__le__` / `PropValue.check` / the attach loop of `Node.inference`
+    on generated inputs (request `{"rel": [...]}`, no call attached) -/
+def shapeOfTy : Ty → Option (List Dim)
+  | .tensor _ sh => sh
+  | _ => none
+
+def relOne (j : Json) : Except String Json := do
+  let k ← j.getObjValAs? String "k"
+  match k with
+  | "subtype" => do
+    let a ← parseTy (← j.getObjVal? "a")
+    let b ← parseTy (← j.getObjVal? "b")
+    return Json.mkObj [("subtype", toJson (subtype a b)), ("compatible", toJson (compatible a b)),
+      ("tyle", toJson (tyLe a b))]
+  | "shape" => do
+    let a ← parseTy (← j.getObjVal? "a")
+    let b ← parseTy (← j.getObjVal? "b")
+    return toJson (shapeLe (shapeOfTy a) (shapeOfTy b))
+  | "check" => do
+    let e ← j.getObjValAs? Nat "e"
+    let vs ← j.getObjValAs? (List Nat) "shape"
+    let t ← parseTy (← j.getObjVal? "ty")
+    return toJson (propCheck e vs t)
+  | "attach" => do
+    let raw ← (← j.getObjValAs? (Array Json) "raw").toList.mapM (fun r => do
+      let key ← r.getObjValAs? String "key"
+      let e ← r.getObjValAs? Nat "e"
+      let vs ← r.getObjValAs? (List Nat) "shape"
+      let d ← r.getObjValAs? String "digest"
+      pure (key, ({ elem := e, shape := vs, digest := d } : RawVal)))
+    let tys ← (← j.getObjValAs? (Array Json) "tys").toList.mapM (fun r => do
+      let a ← r.getArr?
+      let key ← (a.getD 0 Json.null).getStr?
+      let t ← parseOptTy (a.getD 1 Json.null)
+      pure (key, t))
+    let one := tys.filterMap (fun p => (attachOne raw p).raw.map (fun v => (p.1, v.digest)))
+    let pj (l : List (String × String)) : Json := Json.arr (l.map (fun p => Json.arr #[Json.str p.1, Json.str p.2])).toArray
+    return Json.mkObj [("checked", pj (checkedProp raw tys)), ("one", pj one)]
+  | _ => throw "bad relation request"
+
+def handleRel (reqs : Array Json) : Json :=
+  Json.mkObj [("rel", Json.arr (reqs.map (fun j => match relOne j with
+    | .ok r => r
+    | .error e => Json.mkObj [("error", e)])))]
+
 def handle (req : Json) : Json :=
+  match req.getObjValAs? (Array Json) "rel" with
+  | .ok reqs => handleRel reqs
+  | .error _ =>
   match (do
     let c ← parseCall req
     let inferJ := (req.getObjVal? "infer").toOption.getD Json.null
@@ -211,6 +260,24 @@ def handle (req : Json) : Json :=
         | .error _ => pure [("vp", Json.str "error")]
         | .ok outs => pure [("vp", Json.arr (outs.map (fun (o : OutVar) =>
             Json.arr #[Json.str o.key, otyJ o.ty, match o.val with | none => Json.null | some v => Json.str v])).toArray)]
+      | _, _ => pure []
+    -- round 10: every attached ndarray value (element type, shape) against the type `construct` reports
+    let fitExtra ← match (req.getObjVal? "value_facts").toOption, inferJ with
+      | some (.arr fs), .arr _ => do
+        let ans ← parseInfer inferJ
+        match construct (fun _ => ans) c with
+        | .error _ => pure []
+        | .ok tys => do
+          let l ← fs.toList.mapM (fun (f : Json) => do
+            let a ← f.getArr?
+            let k ← (a.getD 0 Json.null).getStr?
+            let e ← (a.getD 1 Json.null).getNat?
+            let vs : List Nat ← fromJson? (a.getD 2 Json.null)
+            let fit := match (tys.find? (fun (p : String × Option Ty) => p.1 == k)).bind (fun p => p.2) with
+              | some t => propCheck e vs t
+              | none => false
+            pure (Json.arr #[Json.str k, toJson fit]))
+          pure [("values_fit", Json.arr l.toArray)]
       | _, _ => pure []
     -- the supplements' own rules on top of the observed standard answer
     let tyList (j : Json) : Except String (List (Option Ty)) := do
@@ -289,7 +356,7 @@ def handle (req : Json) : Json :=
         | some e => pure [("ml_onnx", toJson (codeOfElem (MLOnnx.onnxMlElem opn e)))]
         | none => pure []
       | none => pure []
-    return Json.mkObj (base ++ extra ++ vpExtra ++ suppExtra ++ protoExtra ++ formalsExtra ++ mlExtra)) with
+    return Json.mkObj (base ++ extra ++ vpExtra ++ fitExtra ++ suppExtra ++ protoExtra ++ formalsExtra ++ mlExtra)) with
   | .ok j => j
   | .error e => Json.mkObj [("error", e)]
 
